@@ -1,6 +1,592 @@
 package main
 
-// Staged is the staged program (generated-parser skeletons); see stage_*.go.
-type Staged struct{}
+// staged.go — the staged program: generated-parser skeletons (DESIGN.md §2).
+// For every documented configuration {packed, dense} × {global, object} the embedded template constant
+// is parsed with text/template/parse (never executed), its holes are filled with the builders' shapes
+// rendered abstractly (loops unrolled k times, typed placeholders in literal position), and the resulting
+// ordinary Go source is parsed and type-checked. Rules then analyse that source like any Go package.
 
-func (s *Staged) Summary() interface{} { return nil }
+import (
+	"fmt"
+	"go/ast"
+	"go/importer"
+	"go/parser"
+	"go/token"
+	"go/types"
+	"regexp"
+	"sort"
+	"strings"
+	"text/template/parse"
+)
+
+type Variant struct {
+	Name   string // e.g. "go/global/packed"
+	Object bool
+	Packed bool
+	Http   bool
+}
+
+type Skeleton struct {
+	V       Variant
+	K       int    // loop unrolling
+	ActSet  int    // index of the representative action assignment
+	Src     string // rendered Go source
+	Fset    *token.FileSet
+	File    *ast.File
+	Info    *types.Info
+	Pkg     *types.Package
+	ParseEr error
+	TypeErs []string
+}
+
+type StagedConfig struct {
+	V        Variant
+	Eval     *ShapeEval
+	Template string // template constant value
+	TemplVar string // name of the template variable chosen
+	TemplPos token.Pos
+	Tree     *parse.Tree
+	FieldOf  map[string]*types.Var // builder field name -> var
+	Skels    []*Skeleton
+	Errs     []string
+}
+
+type Staged struct {
+	Configs []*StagedConfig
+	TS      *TSStaged
+	Errs    []string
+}
+
+func (s *Staged) Summary() interface{} {
+	var out []string
+	for _, c := range s.Configs {
+		for _, k := range c.Skels {
+			st := "type-checked"
+			if k.ParseEr != nil {
+				st = "parse error"
+			} else if len(k.TypeErs) > 0 {
+				st = fmt.Sprintf("%d type errors", len(k.TypeErs))
+			}
+			out = append(out, fmt.Sprintf("%s k=%d actions=%d: %d bytes, %s", c.V.Name, k.K, k.ActSet, len(k.Src), st))
+		}
+	}
+	return out
+}
+
+// GetStaged builds the staged program once per run.
+func (c *Ctx) GetStaged() *Staged {
+	if c.stage != nil {
+		return c.stage
+	}
+	st := &Staged{}
+	c.stage = st
+	entry := c.Func("Builder", "", "TemplateGenFromString")
+	wf := c.Func("Builder", "TemplateBuilder", "WriteFile")
+	if entry == nil || wf == nil {
+		st.Errs = append(st.Errs, "Builder.TemplateGenFromString / (*TemplateBuilder).WriteFile not found")
+		return st
+	}
+	variants := []Variant{
+		{Name: "go/global/packed", Packed: true},
+		{Name: "go/global/dense"},
+		{Name: "go/object/packed", Object: true, Packed: true},
+		{Name: "go/object/dense", Object: true},
+	}
+	if c.Tier == "thorough" {
+		variants = append(variants, Variant{Name: "go/global/packed/http", Packed: true, Http: true})
+	}
+	for _, v := range variants {
+		sc := &StagedConfig{V: v, FieldOf: map[string]*types.Var{}}
+		st.Configs = append(st.Configs, sc)
+		cfg := map[string]bool{
+			"Utils.ObjectMode": v.Object,
+			"recv.NeedPacked":  v.Packed,
+		}
+		sc.Eval = newShapeEval(c, cfg)
+		sc.Eval.EvalEntry(entry)
+		sc.Errs = append(sc.Errs, sc.Eval.errs...)
+		// template choice in WriteFile under this configuration
+		sc.Template, sc.TemplVar, sc.TemplPos = chooseTemplate(c, wf, cfg)
+		if sc.Template == "" {
+			sc.Errs = append(sc.Errs, "cannot resolve the template constant parsed in WriteFile")
+			continue
+		}
+		trees, err := parse.Parse("gotemplate", sc.Template, "{{", "}}")
+		if err != nil {
+			sc.Errs = append(sc.Errs, "embedded template does not parse: "+err.Error())
+			continue
+		}
+		sc.Tree = trees["gotemplate"]
+		// builder struct fields
+		if tb := c.Pkg("Builder").Types.Scope().Lookup("TemplateBuilder"); tb != nil {
+			if stt := structOf(tb.Type()); stt != nil {
+				for i := 0; i < stt.NumFields(); i++ {
+					sc.FieldOf[stt.Field(i).Name()] = stt.Field(i)
+				}
+			}
+		}
+		ks := []int{2}
+		acts := []int{0}
+		if c.Tier == "thorough" {
+			ks = []int{1, 2, 3}
+			acts = []int{0, 1}
+		}
+		for _, k := range ks {
+			for _, a := range acts {
+				sc.Skels = append(sc.Skels, sc.render(c, k, a))
+			}
+		}
+	}
+	st.TS = buildTSStaged(c)
+	return st
+}
+
+// chooseTemplate resolves `chooseTemplate := A; if utils.ObjectMode { chooseTemplate = B }; template.New(..).Parse(chooseTemplate)`.
+func chooseTemplate(c *Ctx, wf *FuncRef, cfg map[string]bool) (string, string, token.Pos) {
+	info := wf.Pkg.TypesInfo
+	se := newShapeEval(c, cfg)
+	fr := se.newFrame(wf)
+	// evaluate only the statements before the Parse call that assign the string local
+	var argObj types.Object
+	ast.Inspect(wf.Decl.Body, func(n ast.Node) bool {
+		if call, ok := n.(*ast.CallExpr); ok {
+			if f := callee(info, call); f != nil && f.FullName() == "(*text/template.Template).Parse" && len(call.Args) == 1 {
+				argObj = identObj(info, call.Args[0])
+			}
+		}
+		return true
+	})
+	if argObj == nil {
+		return "", "", token.NoPos
+	}
+	name := ""
+	var pos token.Pos
+	for _, s := range wf.Decl.Body.List {
+		switch x := s.(type) {
+		case *ast.AssignStmt:
+			if len(x.Lhs) == 1 && identObj(info, x.Lhs[0]) == argObj {
+				se.stmt(fr, s)
+				name, pos = exprString(x.Rhs[0]), x.Rhs[0].Pos()
+			}
+		case *ast.IfStmt:
+			if v, ok := se.configValue(fr, x.Cond); ok {
+				if v {
+					for _, bs := range x.Body.List {
+						if as, ok := bs.(*ast.AssignStmt); ok && len(as.Lhs) == 1 && identObj(info, as.Lhs[0]) == argObj {
+							se.stmt(fr, bs)
+							name, pos = exprString(as.Rhs[0]), as.Rhs[0].Pos()
+						}
+					}
+				}
+			} else if assignsObj(info, x, argObj) {
+				return "", "", token.NoPos
+			}
+		}
+	}
+	if l, ok := fr.env[argObj].(*SLit); ok {
+		// position of the constant's declaration
+		if id, ok := findIdentByName(c, "Builder", name); ok {
+			pos = id
+		}
+		return l.S, name, pos
+	}
+	return "", "", token.NoPos
+}
+
+func assignsObj(info *types.Info, n ast.Node, o types.Object) bool {
+	found := false
+	ast.Inspect(n, func(m ast.Node) bool {
+		if as, ok := m.(*ast.AssignStmt); ok {
+			for _, l := range as.Lhs {
+				if identObj(info, l) == o {
+					found = true
+				}
+			}
+		}
+		return true
+	})
+	return found
+}
+
+func findIdentByName(c *Ctx, dir, name string) (token.Pos, bool) {
+	p := c.Pkg(dir)
+	if p == nil {
+		return token.NoPos, false
+	}
+	if o := p.Types.Scope().Lookup(name); o != nil {
+		return o.Pos(), true
+	}
+	return token.NoPos, false
+}
+
+// ---------------------------------------------------------------------------------------------
+// rendering
+
+type renderer struct {
+	c      *Ctx
+	k      int
+	actSet int
+	errs   []string
+	loops  []loopFrame
+	match  string // current regex match for replacement functions
+}
+
+type loopFrame struct {
+	lp   *SLoop
+	iter int
+}
+
+// representative action bodies (raw, before $-substitution), chosen per iteration
+var actionSets = [][]string{
+	{"", "$$ = $1", "$$ = $1 + $2", "{ $$ = $2 }"},
+	{"$$ = $1 * 2", "", "if $1 > 0 { $$ = $1 }", "$$ = $3"},
+}
+
+// minimum unrolling per loop, with the reason (DESIGN.md §2.3)
+func loopLowerBound(lp *SLoop) int {
+	switch {
+	case strings.HasSuffix(lp.Over, ".G.ProductoinRules)") && lp.Lo >= 1:
+		return 1 // BuildLALR1 inserts rule 0 and panics unless the start symbol has a rule: at least 2 rules
+	case strings.HasSuffix(lp.Over, ".G.Symbols"):
+		return 2 // `start` and `$` are always present
+	}
+	return 0
+}
+
+func (r *renderer) errf(format string, a ...interface{}) {
+	r.errs = append(r.errs, fmt.Sprintf(format, a...))
+}
+
+func (r *renderer) iterOf(varName string) (int, *SLoop, bool) {
+	for i := len(r.loops) - 1; i >= 0; i-- {
+		if r.loops[i].lp.Var == varName || r.loops[i].lp.KeyVar == varName {
+			return r.loops[i].iter, r.loops[i].lp, true
+		}
+	}
+	return 0, nil, false
+}
+
+func (r *renderer) innerIter() int {
+	if len(r.loops) == 0 {
+		return 0
+	}
+	return r.loops[len(r.loops)-1].iter
+}
+
+var reLoopVar = regexp.MustCompile(`^\$[A-Za-z_][A-Za-z_0-9]*$`)
+
+func (r *renderer) render(s Shape) string {
+	switch x := s.(type) {
+	case nil:
+		return ""
+	case *SLit:
+		return x.S
+	case *SCat:
+		var b strings.Builder
+		for _, p := range x.Parts {
+			b.WriteString(r.render(p))
+		}
+		return b.String()
+	case *SLoop:
+		n := r.k
+		if lb := loopLowerBound(x); n < lb {
+			n = lb
+		}
+		var b strings.Builder
+		for i := 0; i < n; i++ {
+			r.loops = append(r.loops, loopFrame{x, i})
+			b.WriteString(r.render(x.Body))
+			r.loops = r.loops[:len(r.loops)-1]
+		}
+		return b.String()
+	case *SAlt:
+		// data-dependent alternative: alternate by iteration so both arms are rendered
+		if (r.innerIter()+r.actSet)%2 == 0 {
+			return r.render(x.Then)
+		}
+		return r.render(x.Else)
+	case *SRepl:
+		base := r.render(x.Base)
+		if !x.IsRegex {
+			return strings.ReplaceAll(base, x.Old, r.render(x.New))
+		}
+		re, err := regexp.Compile(x.Old)
+		if err != nil {
+			r.errf("replacement pattern %q does not compile", x.Old)
+			return base
+		}
+		return re.ReplaceAllStringFunc(base, func(m string) string {
+			old := r.match
+			r.match = m
+			defer func() { r.match = old }()
+			return r.render(x.New)
+		})
+	case *SHole:
+		return r.hole(x)
+	case *sVar:
+		r.errf("internal marker left in shape")
+		return ""
+	}
+	return ""
+}
+
+func isIntType(t types.Type) bool {
+	if t == nil {
+		return false
+	}
+	b, ok := t.Underlying().(*types.Basic)
+	return ok && b.Info()&types.IsInteger != 0
+}
+
+func (r *renderer) hole(h *SHole) string {
+	p := h.Path
+	it := r.innerIter()
+	// regex replacement function: the match and its suffix
+	if p == "$match" {
+		return r.match
+	}
+	if p == "$match[1:]" && len(r.match) > 0 {
+		return r.match[1:]
+	}
+	if isIntType(h.Typ) {
+		if reLoopVar.MatchString(p) {
+			if i, lp, ok := r.iterOf(p); ok {
+				if lp.Lo >= 0 {
+					return fmt.Sprint(int(lp.Lo) + i)
+				}
+				return fmt.Sprint(i)
+			}
+		}
+		if strings.HasPrefix(p, "key(") {
+			return fmt.Sprint(it)
+		}
+		switch {
+		case strings.HasSuffix(p, "GenErrorCode()"):
+			return "9100"
+		case strings.HasSuffix(p, "GenAcceptCode()"):
+			return "9200"
+		case strings.HasSuffix(p, ".LeftPart.ID"):
+			return fmt.Sprint(50 + it)
+		case strings.HasPrefix(p, "len(") && strings.HasSuffix(p, ".RighPart)"):
+			return fmt.Sprint(it)
+		case strings.HasSuffix(p, ".Value"):
+			return fmt.Sprint(300 + it)
+		case strings.HasSuffix(p, ".ID"):
+			return fmt.Sprint(400 + it)
+		case strings.HasSuffix(p, ".LineNo"):
+			return fmt.Sprint(10 + it)
+		}
+		return fmt.Sprint(1 + it)
+	}
+	if isStringType(h.Typ) {
+		switch {
+		case strings.HasSuffix(p, ".Tag"):
+			return "val"
+		case strings.HasSuffix(p, ".ActionCode"):
+			set := actionSets[r.actSet%len(actionSets)]
+			return set[it%len(set)]
+		case strings.HasSuffix(p, ".Name") || strings.HasSuffix(p, ".Name)"):
+			return fmt.Sprintf("T%d", it)
+		case strings.HasSuffix(p, ".GetCode()"):
+			return "package main\n\nimport \"fmt\"\n"
+		case strings.HasSuffix(p, ".GetUion()"):
+			return "val int"
+		case strings.HasSuffix(p, ".GetCodeCopy()"):
+			return "\nfunc GetToken(input string, val *ValType, pos *int) int { return -1 }\n"
+		}
+		r.errf("string hole with unclassified provenance %s in %s", p, h.Fn)
+		return "X"
+	}
+	if b, ok := h.Typ.Underlying().(*types.Basic); ok && b.Info()&types.IsBoolean != 0 {
+		return "true"
+	}
+	r.errf("hole of unsupported type %s (%s)", h.Typ, p)
+	return "0"
+}
+
+// renderTemplate walks the parsed template for one configuration.
+func (sc *StagedConfig) renderTemplate(r *renderer) string {
+	var b strings.Builder
+	var walk func(n parse.Node)
+	fieldShape := func(name string) string {
+		fv := sc.FieldOf[name]
+		if fv == nil {
+			r.errf("template refers to unknown builder field .%s", name)
+			return ""
+		}
+		if sh, ok := sc.Eval.fields[fv]; ok {
+			return r.render(sh)
+		}
+		if p, ok := sc.Eval.fieldsP[fv]; ok {
+			if isIntType(fv.Type()) {
+				_ = p
+				return "7"
+			}
+			return "true"
+		}
+		// never assigned: zero value
+		if isStringType(fv.Type()) {
+			return ""
+		}
+		if isIntType(fv.Type()) {
+			return "0"
+		}
+		return "false"
+	}
+	walk = func(n parse.Node) {
+		switch x := n.(type) {
+		case *parse.ListNode:
+			if x == nil {
+				return
+			}
+			for _, m := range x.Nodes {
+				walk(m)
+			}
+		case *parse.TextNode:
+			b.Write(x.Text)
+		case *parse.ActionNode:
+			name, ok := singleField(x.Pipe)
+			if !ok {
+				r.errf("template action %s is not a single field reference", x.String())
+				return
+			}
+			b.WriteString(fieldShape(name))
+		case *parse.IfNode:
+			name, ok := singleField(x.Pipe)
+			if !ok {
+				r.errf("template condition %s is not a single field reference", x.Pipe.String())
+				return
+			}
+			var v bool
+			switch name {
+			case "NeedPacked":
+				v = sc.V.Packed
+			case "HttpParser":
+				v = sc.V.Http
+			default:
+				r.errf("template condition on unexpected field .%s", name)
+			}
+			if v {
+				walk(x.List)
+			} else if x.ElseList != nil {
+				walk(x.ElseList)
+			}
+		default:
+			r.errf("template node %T is outside the recognised subset", n)
+		}
+	}
+	walk(sc.Tree.Root)
+	return b.String()
+}
+
+func singleField(p *parse.PipeNode) (string, bool) {
+	if p == nil || len(p.Cmds) != 1 || len(p.Cmds[0].Args) != 1 || len(p.Decl) != 0 {
+		return "", false
+	}
+	f, ok := p.Cmds[0].Args[0].(*parse.FieldNode)
+	if !ok || len(f.Ident) != 1 {
+		return "", false
+	}
+	return f.Ident[0], true
+}
+
+var stdImporter types.Importer
+
+func (sc *StagedConfig) render(c *Ctx, k, actSet int) *Skeleton {
+	sk := &Skeleton{V: sc.V, K: k, ActSet: actSet, Fset: token.NewFileSet()}
+	r := &renderer{c: c, k: k, actSet: actSet}
+	sk.Src = sc.renderTemplate(r)
+	for _, e := range r.errs {
+		sk.TypeErs = append(sk.TypeErs, "render: "+e)
+	}
+	f, err := parser.ParseFile(sk.Fset, "skeleton_"+strings.ReplaceAll(sc.V.Name, "/", "_")+".go", sk.Src, parser.ParseComments|parser.SkipObjectResolution)
+	if err != nil {
+		sk.ParseEr = err
+		return sk
+	}
+	sk.File = f
+	sk.Info = &types.Info{Types: map[ast.Expr]types.TypeAndValue{}, Defs: map[*ast.Ident]types.Object{}, Uses: map[*ast.Ident]types.Object{},
+		Selections: map[*ast.SelectorExpr]*types.Selection{}, Implicits: map[ast.Node]types.Object{}, Scopes: map[ast.Node]*types.Scope{}}
+	if stdImporter == nil {
+		stdImporter = &depImporter{c: c, fallback: importer.ForCompiler(token.NewFileSet(), "source", nil)}
+	}
+	conf := types.Config{Importer: stdImporter, Error: func(err error) {
+		sk.TypeErs = append(sk.TypeErs, err.Error())
+	}}
+	sk.Pkg, _ = conf.Check("main", sk.Fset, []*ast.File{f}, sk.Info)
+	return sk
+}
+
+// depImporter serves std packages from the already loaded dependency graph of /repo.
+type depImporter struct {
+	c        *Ctx
+	cache    map[string]*types.Package
+	fallback types.Importer
+}
+
+func (d *depImporter) Import(path string) (*types.Package, error) {
+	if d.cache == nil {
+		d.cache = map[string]*types.Package{}
+		seen := map[string]bool{}
+		var visit func(p interface{})
+		_ = visit
+		var walk func(tp *types.Package)
+		walk = func(tp *types.Package) {
+			if tp == nil || seen[tp.Path()] {
+				return
+			}
+			seen[tp.Path()] = true
+			d.cache[tp.Path()] = tp
+			for _, im := range tp.Imports() {
+				walk(im)
+			}
+		}
+		for _, p := range d.c.All {
+			walk(p.Types)
+		}
+	}
+	if p, ok := d.cache[path]; ok && p.Complete() {
+		return p, nil
+	}
+	return d.fallback.Import(path)
+}
+
+// FuncDecl finds a function or method of the skeleton by name (receiver type name "" for functions).
+func (sk *Skeleton) FuncDecl(recv, name string) *ast.FuncDecl {
+	if sk.File == nil {
+		return nil
+	}
+	for _, d := range sk.File.Decls {
+		fd, ok := d.(*ast.FuncDecl)
+		if !ok || fd.Name.Name != name || fd.Body == nil {
+			continue
+		}
+		rn, _ := recvTypeName(fd)
+		if rn == recv {
+			return fd
+		}
+	}
+	return nil
+}
+
+func (sk *Skeleton) pos(p token.Pos) string {
+	if sk.Fset == nil || !p.IsValid() {
+		return "skeleton " + sk.V.Name
+	}
+	pp := sk.Fset.Position(p)
+	line := ""
+	lines := strings.Split(sk.Src, "\n")
+	if pp.Line-1 < len(lines) && pp.Line > 0 {
+		line = strings.TrimSpace(lines[pp.Line-1])
+	}
+	return fmt.Sprintf("skeleton %s line %d: `%s`", sk.V.Name, pp.Line, line)
+}
+
+func sortedFieldNames(m map[*types.Var]Shape) []string {
+	var out []string
+	for k := range m {
+		out = append(out, k.Name())
+	}
+	sort.Strings(out)
+	return out
+}
